@@ -42,7 +42,8 @@ def norm(label):
 
 # the last form: an image whose description holds a bracketed group around a reference link (the description is flattened
 # to alt text, so only the image shows)
-USE_TEXT = 'a [{l}] b [{l}][] c [t][{l}] d ![{l}] e ![i][{l}] f [{l}][zz] g ![x [[{l}]] y][{l}] h'
+# ... and a shortcut reference directly followed by a parenthesis that is never closed (not an inline link: the reference form applies)
+USE_TEXT = 'a [{l}] b [{l}][] c [t][{l}] d ![{l}] e ![i][{l}] f [{l}][zz] g ![x [[{l}]] y][{l}] h [{l}]('
 
 
 def use_text(labels):
@@ -58,6 +59,7 @@ def model_uses(labels, table):
             out.append((kind,) + hit if hit else None)
         out.append(None)        # [l][zz]: full reference to an undefined label stays literal even if l itself is defined
         out.append(('img',) + hit if hit else None)
+        out.append(('a',) + hit if hit else None)
     return out
 
 
